@@ -76,8 +76,8 @@ class QueueEvents(FnSpec):
 
     def __init__(self, W, prop, want=("table", "types", "root")):
         self.W, self.world, self.prop, self.want = W, W, prop, want
-        self.loops = {1: LoopSpec("generate_sub_moved_events(src_path, dest_path)", self.inv_sub, modifies=[("ghost", "out")]),
-                      2: LoopSpec("generate_sub_created_events(src_path)", self.inv_sub, modifies=[("ghost", "out")])}
+        self.loops = {1: LoopSpec("generate_sub_moved_events(src_path, dest_path)", self.inv_sub, modifies=[("ghost", "out")], every_element=True),
+                      2: LoopSpec("generate_sub_created_events(src_path)", self.inv_sub, modifies=[("ghost", "out")], every_element=True)}
         self.expected_covers = ["loop1.body", "loop1.end", "loop2.body", "loop2.end", "exit"]
 
     inline = {"EventEmitter.watch", "ObservedWatch.path", "ObservedWatch.is_recursive", "InotifyEmitter._decode_path"} | {
